@@ -1,6 +1,8 @@
 /-
   C24 — `enc_dec_segments_init` produces a well-formed control block:
-  `Seg.WF (initSeg …)`, `Seg.Live (initSeg …)` for `2 ≤ W ∨ Rr = 1`, and the negative for `W = 1`.
+  `Seg.WF (initSeg …)` and `Seg.Live (initSeg …)` for every accepted input (`InitOK`), the single-segment
+  shape of a one-SB-wide picture, and (as a witness for `sched_stuck`) the stuck control block the code
+  produced for such a picture before the clamp of EbEncDecSegments.c:83.
 -/
 import SvtVerif.Lemmas.SegmentsArith
 import SvtVerif.Lemmas.Segments
@@ -172,14 +174,14 @@ theorem aget_foldl_twoInc {α : Type} (m : Nat) (c1 c2 : α → Prop) [Decidable
     congr 1
     omega
 
-/-- the `(row, segment_index)` pairs visited by the dependency loop (lines 141-146), in order -/
+/-- the `(row, segment_index)` pairs visited by the dependency loop (lines 146-151), in order -/
 def depPairs (rows : Array SegRow) (r2 : Nat) : List (Nat × Nat) :=
   (List.range r2).flatMap fun r => (rowSegs rows r).map fun s => (r, s)
 
-/-- right-neighbour increment condition (lines 147-150) -/
+/-- right-neighbour increment condition (lines 152-155) -/
 def depC1 (valid : Array Nat) (rows : Array SegRow) (e : Nat × Nat) : Prop :=
   aget valid e.2 ≠ 0 ∧ e.2 < rowEnd rows e.1
-/-- bottom-left increment condition (lines 147, 153-156) -/
+/-- bottom-left increment condition (lines 152, 158-161) -/
 def depC2 (valid : Array Nat) (rows : Array SegRow) (segRow B : Nat) (e : Nat × Nat) : Prop :=
   aget valid e.2 ≠ 0 ∧ e.1 < sub32 segRow 1 ∧ u32 (e.2 + B) ≥ rowStart rows (e.1 + 1)
 
@@ -385,7 +387,7 @@ theorem count_bottom (ok : RowsOK rows R B)
       simp only at this
       congr 1 <;> omega
 
-/-- the dependency fold of `enc_dec_segments_init` (lines 141-160), for any row table satisfying
+/-- the dependency fold of `enc_dec_segments_init` (lines 146-165), for any row table satisfying
     `RowsOK` and any `valid` array that is non-zero on every row range -/
 theorem dep_fold_spec (ok : RowsOK rows R B)
     (hvalid : ∀ r, r < R → ∀ s, rowStart rows r ≤ s → s ≤ rowEnd rows r → aget valid s ≠ 0)
@@ -413,7 +415,8 @@ end
 
 /-- size hypotheses under which `enc_dec_segments_init` is analysed: picture at most 4096x4096 SBs
     and fewer than 65536 SBs in total (so `valid_sb_count_array` (uint16_t) cannot wrap), at least one
-    segment row/column requested, and `segment_ttl_count < 65536` (uint16_t row indices). -/
+    segment row/column requested, and `segment_ttl_count < 65536` (uint16_t row indices), where
+    `effR W H R MR` is the effective segment row count after init's clamps (1 when `W = 1`). -/
 structure InitOK (W H C R MR : Nat) : Prop where
   hW1 : 1 ≤ W
   hW : W ≤ 4096
@@ -423,7 +426,7 @@ structure InitOK (W H C R MR : Nat) : Prop where
   hR : 1 ≤ R
   hMR : 1 ≤ MR
   hWH : W * H < 65536
-  hN : min (min R H) MR * segB (min (min R H) MR) (min C W) < 65536
+  hN : effR W H R MR * segB (effR W H R MR) (min C W) < 65536
 
 section
 variable {W H C R MR : Nat}
@@ -445,20 +448,20 @@ theorem initSeg_dep_fold (MC : Nat) :
 
 /-- every segment inside a row range contains at least one SB, and its `uint16_t` SB count is non-zero -/
 theorem initSeg_valid_ne_zero (ok : InitOK W H C R MR) (MC : Nat) {r s : Nat}
-    (hr : r < min (min R H) MR)
-    (h1 : cst W H (min C W) (min (min R H) MR) r ≤ s)
-    (h2 : s ≤ cen W H (min C W) (min (min R H) MR) r) :
+    (hr : r < effR W H R MR)
+    (h1 : cst W H (min C W) (effR W H R MR) r ≤ s)
+    (h2 : s ≤ cen W H (min C W) (effR W H R MR) r) :
     aget (initSeg W H C R MC MR).validSb s ≠ 0 := by
   obtain ⟨hW1, hW, hH1, hH, hC, hR, hMR, hWH, hN⟩ := ok
   have hCc : 1 ≤ min C W := by omega
   have hCW : min C W ≤ W := by omega
-  have hRr : 1 ≤ min (min R H) MR := by omega
-  have hRH : min (min R H) MR ≤ H := by omega
+  have hRr : 1 ≤ effR W H R MR := effR_pos hH1 hR hMR
+  have hRH : effR W H R MR ≤ H := effR_le_H hH1
   have httl := initSeg_segTtlCount_closed (R := R) (MR := MR) hW1 hW hH hC MC hN
   have hs : s < (initSeg W H C R MC MR).segTtlCount := by
     rw [httl]
     have a := cen_lt (W := W) (H := H) (Cc := min C W) hW1 hCc hRr hRH hr
-    have b := Nat.mul_le_mul_right (segB (min (min R H) MR) (min C W)) (show r + 1 ≤ _ from hr)
+    have b := Nat.mul_le_mul_right (segB (effR W H R MR) (min C W)) (show r + 1 ≤ _ from hr)
     omega
   rw [initSeg_validSb_fold, aget_foldl_count_mod 65536 _ _ _ s (by simpa using hs)
     (by rw [aget_replicate]; split <;> omega), aget_replicate, if_pos hs, Nat.zero_add]
@@ -480,31 +483,31 @@ theorem initSeg_valid_ne_zero (ok : InitOK W H C R MR) (MC : Nat) {r s : Nat}
 /-- (5b) the static facts about the control block, in closed form -/
 theorem initSeg_wf_static (ok : InitOK W H C R MR) (MC : Nat) :
     let g := initSeg W H C R MC MR
-    g.segRowCount = min (min R H) MR ∧
-    g.segBandCount = segB (min (min R H) MR) (min C W) ∧
+    g.segRowCount = effR W H R MR ∧
+    g.segBandCount = segB (effR W H R MR) (min C W) ∧
     g.sbBandCount = sbT W H ∧
     g.segTtlCount = g.segRowCount * g.segBandCount ∧
     g.rows.size = g.segRowCount ∧
     1 ≤ g.segBandCount ∧ 1 ≤ g.segRowCount ∧ g.segRowCount * g.segBandCount < 65536 ∧
     (∀ r, r < g.segRowCount →
-      rowStart g.rows r = cst W H (min C W) (min (min R H) MR) r ∧
-      rowEnd g.rows r = cen W H (min C W) (min (min R H) MR) r ∧
+      rowStart g.rows r = cst W H (min C W) (effR W H R MR) r ∧
+      rowEnd g.rows r = cen W H (min C W) (effR W H R MR) r ∧
       (g.rows.getD r default).current = rowStart g.rows r) := by
   intro g
   obtain ⟨hW1, hW, hH1, hH, hC, hR, hMR, hWH, hN⟩ := ok
-  have eR : g.segRowCount = min (min R H) MR := initSeg_segRowCount_min W H C R MC MR
-  have eB : g.segBandCount = segB (min (min R H) MR) (min C W) :=
+  have eR : g.segRowCount = effR W H R MR := initSeg_segRowCount_min W H C R MC MR
+  have eB : g.segBandCount = segB (effR W H R MR) (min C W) :=
     initSeg_segBandCount_closed hW1 hW hH hC MC
-  have eT : g.segTtlCount = min (min R H) MR * segB (min (min R H) MR) (min C W) :=
+  have eT : g.segTtlCount = effR W H R MR * segB (effR W H R MR) (min C W) :=
     initSeg_segTtlCount_closed hW1 hW hH hC MC hN
   refine ⟨eR, eB, initSeg_sbBandCount_closed hW1 hW hH MC, by rw [eT, eR, eB],
-    by rw [eR]; exact initSeg_rows_size MC, by rw [eB]; exact segB_pos (by omega) (by omega),
-    by rw [eR]; omega, by rw [eR, eB]; exact hN, ?_⟩
+    by rw [eR]; exact initSeg_rows_size MC, by rw [eB]; exact segB_pos (by omega) (effR_pos hH1 hR hMR),
+    by rw [eR]; exact effR_pos hH1 hR hMR, by rw [eR, eB]; exact hN, ?_⟩
   intro r hr
   rw [eR] at hr
-  have e1 := initSeg_rowStart (R := R) (MR := MR) hW1 hW hH hC MC hN hr
-  have e2 := initSeg_rowEnd (R := R) (MR := MR) hW1 hW hH hC MC hN hr
-  have e3 := initSeg_row (R := R) (MR := MR) hW1 hW hH hC MC hN hr
+  have e1 := initSeg_rowStart (R := R) (MR := MR) hW1 hW hH1 hH hC MC hN hr
+  have e2 := initSeg_rowEnd (R := R) (MR := MR) hW1 hW hH1 hH hC MC hN hr
+  have e3 := initSeg_row (R := R) (MR := MR) hW1 hW hH1 hH hC MC hN hr
   refine ⟨e1, e2, ?_⟩
   show ((initSeg W H C R MC MR).rows.getD r default).current = rowStart (initSeg W H C R MC MR).rows r
   rw [e1, e3]
@@ -515,8 +518,8 @@ theorem initSeg_rowsOK (ok : InitOK W H C R MR) (MC : Nat) :
   obtain ⟨eR, eB, _, _, _, hB, hR', hs, hrow⟩ := initSeg_wf_static ok MC
   obtain ⟨hW1, hW, hH1, hH, hC, hR, hMR, hWH, hN⟩ := ok
   have hCc : 1 ≤ min C W := by omega
-  have hRr : 1 ≤ min (min R H) MR := by omega
-  have hRH : min (min R H) MR ≤ H := by omega
+  have hRr : 1 ≤ effR W H R MR := effR_pos hH1 hR hMR
+  have hRH : effR W H R MR ≤ H := effR_le_H hH1
   refine ⟨hB, hR', hs, ?_, ?_, ?_⟩
   · intro r hr
     rw [(hrow r hr).1, eB]; exact le_cst r
@@ -532,7 +535,7 @@ theorem initSeg_rowsOK (ok : InitOK W H C R MR) (MC : Nat) :
 theorem initSeg_wf (ok : InitOK W H C R MR) (MC : Nat) : WF (initSeg W H C R MC MR) := by
   have rok := initSeg_rowsOK ok MC
   obtain ⟨eR, eB, _, eT, hsz, hB, hR', hs, hrow⟩ := initSeg_wf_static ok MC
-  have hRr : 1 ≤ min (min R H) MR := by have := ok.hR; have := ok.hMR; have := ok.hH1; omega
+  have hRr : 1 ≤ effR W H R MR := effR_pos ok.hH1 ok.hR ok.hMR
   have hvalid : ∀ r, r < (initSeg W H C R MC MR).segRowCount → ∀ s,
       rowStart (initSeg W H C R MC MR).rows r ≤ s → s ≤ rowEnd (initSeg W H C R MC MR).rows r →
       aget (initSeg W H C R MC MR).validSb s ≠ 0 := by
@@ -563,39 +566,50 @@ theorem initSeg_wf (ok : InitOK W H C R MR) (MC : Nat) : WF (initSeg W H C R MC 
       unfold botPred at hb'
       rw [if_neg hb, if_neg hb']
 
-/-- (5d) with at least two SB columns (or a single segment row) every row after the first is fed by a
-    bottom edge -/
-theorem initSeg_live (ok : InitOK W H C R MR) (MC : Nat) (hw : 2 ≤ W ∨ min (min R H) MR = 1) :
-    Live (initSeg W H C R MC MR) := by
+/-- (5d) every row after the first is fed by a bottom edge: with at least two SB columns by the geometry
+    (`cst_succ_le_cen_add`), and a picture one SB wide has a single segment row (line 83), so there is no
+    "row after the first".  (Without the clamp of line 83 this fails for `W = 1`, `Rr ≥ 2`:
+    `no_bottom_edge_W1` in SegmentsArith.) -/
+theorem initSeg_live (ok : InitOK W H C R MR) (MC : Nat) : Live (initSeg W H C R MC MR) := by
   obtain ⟨eR, eB, _, _, _, _, _, _, hrow⟩ := initSeg_wf_static ok MC
   intro r hr
   rw [(hrow r (by omega)).2.1, (hrow (r + 1) hr).1, eB]
-  rcases hw with h | h
-  · exact cst_succ_le_cen_add h (by have := ok.hR; have := ok.hMR; have := ok.hH1; omega) (by omega) r
+  rcases effR_live ok.hW1 H R MR with h | h
+  · exact cst_succ_le_cen_add h (effR_pos ok.hH1 ok.hR ok.hMR) (effR_le_H ok.hH1) r
   · rw [eR] at hr; omega
 
-/-- (5d) NEGATIVE: a one-SB-wide picture with at least two segment rows is not live: the first
-    segment of row 1 has dependency count 0 … and no bottom edge ever releases it. -/
-theorem initSeg_not_live_W1 (ok : InitOK 1 H C R MR) (MC : Nat) (h2 : 2 ≤ min (min R H) MR) :
-    ¬ Live (initSeg 1 H C R MC MR) := by
-  obtain ⟨eR, eB, _, _, _, _, _, _, hrow⟩ := initSeg_wf_static ok MC
-  intro hl
-  have := hl 0 (by rw [eR]; omega)
-  rw [(hrow 0 (by rw [eR]; omega)).2.1, (hrow 1 (by rw [eR]; omega)).1, eB] at this
-  have hC1 : min C 1 = 1 := by have := ok.hC; omega
-  rw [hC1] at this
-  have neg := (no_bottom_edge_W1 (H := H) (Rr := min (min R H) MR) (by omega) (by omega) 0).2.2.2
-  rw [Nat.zero_add] at neg
-  omega
+/-- a picture (tile group) one SB wide is a single segment: one row, one band -/
+theorem initSeg_W1 (ok : InitOK 1 H C R MR) (MC : Nat) :
+    (initSeg 1 H C R MC MR).segRowCount = 1 ∧ (initSeg 1 H C R MC MR).segBandCount = 1 ∧
+    (initSeg 1 H C R MC MR).segTtlCount = 1 := by
+  obtain ⟨eR, eB, _, eT, _, _, _, _, _⟩ := initSeg_wf_static ok MC
+  have hC := ok.hC
+  have e1 : effR 1 H R MR = 1 := effR_W1 H R MR
+  have e2 : min C 1 = 1 := by omega
+  rw [e1] at eR
+  rw [e1, e2] at eB
+  refine ⟨eR, by rw [eB]; rfl, ?_⟩
+  rw [eT, eR, eB]; rfl
 
 end
 
-/-! non-vacuity: the hypotheses are satisfiable, and the negative instance is real -/
+/-! non-vacuity: the hypotheses are satisfiable, also for the formerly stuck one-SB-wide grid -/
 example : InitOK 5 7 3 4 6 := ⟨by decide, by decide, by decide, by decide, by decide, by decide, by decide,
   by decide, by decide⟩
 example : WF (initSeg 5 7 3 4 6 6) := initSeg_wf ⟨by decide, by decide, by decide, by decide, by decide,
   by decide, by decide, by decide, by decide⟩ 6
-example : ¬ Live (initSeg 1 7 1 4 6 6) := initSeg_not_live_W1 ⟨by decide, by decide, by decide, by decide,
-  by decide, by decide, by decide, by decide, by decide⟩ 6 (by decide)
+example : Live (initSeg 1 7 1 4 6 6) := initSeg_live ⟨by decide, by decide, by decide, by decide,
+  by decide, by decide, by decide, by decide, by decide⟩ 6
+
+/-- The control block the init code produced BEFORE the clamp of EbEncDecSegments.c:83 for a picture 1 SB wide and
+    2 SBs high with 2 segment rows (C = 1, R = 2): band count 2, rows `{0}` and `{3}`, every dependency count 0.
+    Used as the witness that the hypotheses of `sched_stuck` are satisfiable (this grid really hung). -/
+def preFixW1x2 : SegCtl :=
+  { maxRowCount := 2, maxBandCount := 3, maxTotalCount := 6, segBandCount := 2, segRowCount := 2, segTtlCount := 4,
+    sbBandCount := 2, sbRowCount := 2, validSb := #[1, 0, 0, 1], xStart := #[0, 65535, 65535, 0],
+    yStart := #[0, 65535, 65535, 1], dep := #[0, 0, 0, 0],
+    rows := #[{ starting := 0, ending := 0, current := 0 }, { starting := 3, ending := 3, current := 3 }] }
+
+theorem preFixW1x2_wf : WF preFixW1x2 := wf_of_check preFixW1x2 false (by decide)
 
 end Seg
